@@ -34,7 +34,14 @@ def probe_cookie(ctx, e, sp, dp):
 
 
 def app_stream(rng):
-    k = rng.randrange(7)
+    k = rng.randrange(8)
+    if k == 7 or k == 6 and rng.random() < 0.5:
+        # the portmapper's registry procedures with proper arguments (SET / UNSET / GETPORT / DUMP): a responder that kept
+        # a registry would let one client change what the next one is told
+        c = rpc.gen_call(rng, prog=rpc.PMAP, vers=rng.choice([2, 2, 3, 4]), proc=rng.choice([1, 1, 2, 3, 4, 4]), maxauth=8)
+        m = bytearray(c["msg"])
+        m[0] = rng.choice([0x01, 0x7A, 0x99, 0xFE])
+        return "rpc_pmap", rpc.record(bytes(m) if c["proc"] != 4 else bytes(m[:c["trigger"] + 1]))
     if k == 0:
         return "http", http.gen(rng)
     if k == 1:
@@ -157,7 +164,11 @@ def triple(ctx, cfg, forced=None):
             nm, fr = rng.choice(gen.icmp_noise(rng, cfg))
             noise.append((fr, nm))
         elif k == 0:
-            noise.append((oe.udp(gen.rnd_port(rng), gen.rnd_port(rng), rng.choice(gen.app_requests(rng))[1]), "udp"))
+            if rng.random() < 0.3:
+                c = rpc.gen_call(rng, prog=rpc.PMAP, vers=rng.choice([2, 2, 3, 4]), proc=rng.choice([1, 1, 2]), maxauth=8)     # SET / UNSET over UDP
+                noise.append((oe.udp(gen.rnd_port(rng), rng.choice([111, gen.rnd_port(rng)]), bytes([0x7A]) + c["msg"][1:]), "udp:pmap_set"))
+            else:
+                noise.append((oe.udp(gen.rnd_port(rng), gen.rnd_port(rng), rng.choice(gen.app_requests(rng))[1]), "udp"))
         elif k == 1:
             noise.append((oe.echo(rng.getrandbits(16), 1, b"noise"), "echo"))
         else:
